@@ -45,6 +45,8 @@ class C04(Prop):
 
     def gen(self, rng, i, tier):
         c = self._gen(rng, i, tier)
+        if i % 5 == 2:
+            c["edit_between"] = True
         if i % 6 == 3 and c["jds"] and c["jds"][0]:
             c["jds_type"] = "numpy"        # the joint degree sequence is an (N, T) integer array; vertex annotations are its rows
         return c
@@ -104,6 +106,11 @@ class C04(Prop):
                                   and el.motif_id == case["motif_id"]
                                   and [[int(x) for x in r] for r in el.joint_degrees] == [list(r) for r in case["jds"]]
                                   and (case.get("jds_type") == "numpy" or all(isinstance(r, tuple) for r in el.joint_degrees)))
+        if case.get("edit_between") and case.get("jds_type") != "numpy" and len(el.joint_degrees) >= 1:
+            # the caller goes on using its sequence for something else (the library's own handshaking_lemma edits it in place):
+            # the network was built from the sequence as it was, and converting back returns THAT sequence
+            el.joint_degrees.reverse()
+            el.joint_degrees[0] = tuple(x + 1 for x in el.joint_degrees[0])
         try:
             back = NetworkToEdgeList.convert(net)
             obs["back"] = {"edges": [list(e) for e in back.edge_list], "topologies": [enc(t) for t in back.topologies],
